@@ -22,7 +22,7 @@ ASSUMPTIONS = ["reference expansion semantics in this module (cross product, OR-
                "decoder mc/qparse.py; verification backend K0"]
 PARTS = ["a", "*", "%P1%", "%P2%", "%P3%", "\\%x\\%"]
 RE_PARTS = ["a", ".*", "%P1%", "%P2%", "\\%x\\%"]
-MODS = ["", "contains", "startswith", "endswith", "all"]
+MODS = ["", "contains", "startswith", "endswith", "all", "all1"]  # all1: the 'all' modifier on a single value
 VARTABLES = {
     "T0": {"P1": ["x", "y"], "P2": "z", "P3": 7},
     "T1": {"P1": ["x"], "P2": ["u", "v", "w*"]},
@@ -191,13 +191,16 @@ def ref_regex(text, items, vt):
 
 # ------------------------------------------------------------------------------------------------
 def make_rule(pos, mod, value):
+    single = mod == "all1"
+    if single:
+        mod = "all"
     if pos == "str":
         key = "f1|expand" + ("|" + mod if mod else "")
     elif pos == "kw":
         key = "|expand" + ("|" + mod if mod else "")
     else:
         key = "f1|re|expand" + ("|" + mod if mod else "")
-    val = [value, "zz"] if mod == "all" else value
+    val = [value, "zz"] if mod == "all" and not single else value
     return {"title": "t", "logsource": {"category": "c"}, "detection": {"sel": {key: val}, "condition": "sel"}}, key, val
 
 
@@ -205,6 +208,8 @@ def reference(pos, mod, value, items, vt):
     """expected formula or raises RuleFails/Unspec"""
     field = None if pos == "kw" else "f1"
     raw = [value, "zz"] if mod == "all" else [value]
+    if mod == "all1":
+        mod = "all"
     if pos == "re":
         if mod in ("contains", "startswith", "endswith"):
             raise Unspec("contains-family on a regex with placeholders")
@@ -268,6 +273,25 @@ def judge(res, pos, mod, value, items, vt):
         return
     res["outcomes"].add(h64([ref[0], got[0], got[1] if got[0] == "fail" else len(got[1])]))
     kinds = "+".join(sorted({k for k, _ in items})) or "none"
+    if nph and len(items) == 1 and items[0][0] == "VL":
+        # the same transformation objects combined with another variable table first, then with this one
+        from sigma.processing.pipeline import ProcessingPipeline
+
+        other = "T1" if vt != "T1" else "T0"
+        try:
+            base = build_pipeline(items, "T3")
+            for table in (other, vt):
+                comb = base + ProcessingPipeline.from_dict({"name": "vars", "priority": 20, "vars": dict(VARTABLES[table])})
+                try:
+                    again = ("ok", cls(comb).convert_rule(SigmaRule.from_dict(ruled)))
+                except SigmaError as e:
+                    again = ("fail", type(e).__name__, str(e))
+            if again != got:
+                add_violation(res, f"result-depends-on-variable-table-used-before:{pos}", dict(case, earlier_vars=other), got, again)
+                return
+        except Exception as e:
+            add_violation(res, f"non-sigma-exception:{type(e).__name__}:{pos}:reuse", case, got, repr(e)[:300])
+            return
     if got[0] == "ok":
         for q in got[1]:
             if re.search(r"%P\d%", q):
